@@ -847,11 +847,17 @@ class Scheduler:
             else:
                 weight_tensor_purpose = TensorSubPurpose.Standard
 
+            # A single buffer receives every depth slice, a double buffer only every second one
+            first_buffer_size = (
+                encoded_weights.double_buffer_sizes[0]
+                if weight_tensor_purpose == TensorSubPurpose.DoubleBuffer
+                else encoded_weights.max_range_bytes()
+            )
             cost.buffered_weight_tensors = [
                 self.buffer_tensor(
                     encoded_weights,
                     weight_tensor_purpose,
-                    encoded_weights.double_buffer_sizes[0],
+                    first_buffer_size,
                     weight_tensor.name + "_buffer",
                 )
             ]
@@ -938,7 +944,9 @@ class Scheduler:
                     self.buffer_tensor(
                         weight_tensor,
                         buffered_tens.sub_purpose,
-                        weight_tensor.double_buffer_sizes[idx],
+                        weight_tensor.double_buffer_sizes[idx]
+                        if buffered_tens.sub_purpose == TensorSubPurpose.DoubleBuffer
+                        else weight_tensor.max_range_bytes(),
                         buffered_tens.name,
                     )
                 )
